@@ -28,6 +28,21 @@ class Chooser:
         self.fresh = 0
         self.weights = weights or {}
 
+    @staticmethod
+    def _bad_order(q, pool, bad, rng):
+        """Arguments of order_inputs / order_outputs that must be refused: an unknown label, or - at exactly the full
+        length, where an implementation may take a permutation shortcut - a label repeated in place of another."""
+        if not bad:
+            return q
+        how = rng.randrange(3)
+        if how == 0 or len(pool) < 2:
+            return q + ['missing']
+        full = rng.sample(pool, len(pool))
+        if how == 1:
+            full[rng.randrange(1, len(full))] = full[0]
+            return full
+        return full[:-1] + ['missing']
+
     def new_label(self):
         self.fresh += 1
         return f'n{self.fresh}'
@@ -88,10 +103,10 @@ class Chooser:
             return {'a': 'set_inputs', 'q': q}
         if k == 'order_inputs':
             q = rng.sample(ins, rng.randint(0, len(ins))) if ins else []
-            return {'a': 'order_inputs', 'q': q + (['missing'] if bad else [])}
+            return {'a': 'order_inputs', 'q': self._bad_order(q, ins, bad, rng)}
         if k == 'order_outputs':
             q = rng.sample(outs, rng.randint(0, len(outs))) if outs else []
-            return {'a': 'order_outputs', 'q': q + (['missing'] if bad else [])}
+            return {'a': 'order_outputs', 'q': self._bad_order(q, outs, bad, rng)}
         if k == 'replace_inputs':
             sel = rng.sample(ins, min(len(ins), rng.randint(0, 2)))
             cut = rng.randint(0, len(sel))
